@@ -208,6 +208,11 @@ def check_annual_fn(ctx) -> None:
     repo = ctx.repo
     f = repo.method('SurfacePlant', 'annual_electricity_pumping_power')
     rel = f.module.rel
+    # closures that build a whole series (`def _annual(series): buf = zeros(L); for y in range(L): buf[y] = INT(series, y, ..); return buf`)
+    # are written out at their call sites and the buffer is filled under the name it is published as
+    import dataclasses
+    from gxstat.inline import inline_local_functions
+    f = dataclasses.replace(f, node=inline_local_functions(f.node))
     nested = {n.name: n for n in ast.walk(f.node) if isinstance(n, ast.FunctionDef) and n is not f.node}
     L_ = Rat.atom('plant_lifetime')
 
